@@ -577,8 +577,12 @@ package resource
 //@   loop 0 (k):
 //@     assert [seeds-sorted] sortedById(currentValues)
 //@     invariant 0 <= k && k <= len(currentValues) && chanSent(send) == k && !chanClosed(send)
+//@     invariant chanRecvd(emit) == old(chanRecvd(emit)) && calls(include) == old(calls(include))     // seeding receives no event
 //@   loop 1:
 //@     invariant !chanClosed(send) && chanSent(send) >= len(currentValues)
+//@     // the include verdict is taken for EVERY received event, before anything may suppress it: an update that crosses the
+//@     // subscriber's include boundary is an ADD or a REMOVE for that subscriber, whatever the equivalence says about the raw values
+//@     invariant [include-every-event] calls(include) - old(calls(include)) == chanRecvd(emit) - old(chanRecvd(emit))
 //@ property C20
 //@ // constructors used by the trait models; their bodies (option application, clocks) belong to C01-C09 and are not
 //@ // re-verified here: a new resource is a fresh object and constructing it writes nothing that existed before
